@@ -284,7 +284,11 @@ func mkExec(s scen) *mc.Exec {
 					cs = append(cs, fmt.Sprintf("%s=%d@%d", c.key, c.val, c.tStart/ms))
 				}
 			}
-			return fmt.Sprintf("Batch calls: %s; received (value@ms) per subscriber: [%s]; t=%v; parked=%v", strings.Join(cs, " "), strings.Join(seqs, " | "), e.Now, e.Parked())
+			short := make([]string, len(seqs))
+			for i, sq := range seqs {
+				short[i] = abbreviate(strings.Fields(sq))
+			}
+			return fmt.Sprintf("Batch calls: %s; received (value@ms) per subscriber: [%s]; t=%v; parked=%v", abbreviate(cs), strings.Join(short, " | "), e.Now, e.Parked())
 		}
 		// (1) a departed subscriber never blocks later Batch calls, Subscribe or
 		// Close: every such thread has returned (all subscribers that do not
@@ -425,6 +429,14 @@ func mkExec(s scen) *mc.Exec {
 		return nil
 	}
 	return &mc.Exec{Body: body, Check: check}
+}
+
+// abbreviate renders a long list by its ends.
+func abbreviate(xs []string) string {
+	if len(xs) <= 10 {
+		return strings.Join(xs, " ")
+	}
+	return fmt.Sprintf("%s ... %s (%d in all)", strings.Join(xs[:4], " "), strings.Join(xs[len(xs)-3:], " "), len(xs))
 }
 
 // checkTimeline compares what prompt subscribers received with the reference
@@ -767,8 +779,9 @@ func trueSizeScenarios(capacity int) []hx.Scenario {
 				out = append(out, hx.Scenario{
 					Name:  fmt.Sprintf("cap%d %s", capacity, s.name()),
 					Class: classOf(s), ThoroughOnly: extra != 2,
-					Opts: opts(s, 1, 3),
-					Mk:   func() *mc.Exec { return mkExec(scn) },
+					// few, long scenarios: the quick tier stops at the mandatory bound
+					Opts: opts(s, 1, 3), QuickBound: hx.Ptr(1),
+					Mk: func() *mc.Exec { return mkExec(scn) },
 				})
 			}
 		}
